@@ -18,7 +18,7 @@ Section Spec.
   Variable compile : cmode -> src -> cres tmpl.
   Variable loader : Z -> Z -> name -> lres.
   Variable builtin_has : rk -> Z -> option Z.                 (* the built-in filters/tests/globals *)
-  Variable render : tmpl -> (rk -> Z -> option Z) -> obs.
+  Variable render : Z -> tmpl -> (rk -> Z -> option Z) -> obs.
 
   (* ---- templates ---- *)
   (* a held template is a source together with the configuration that was current when it was added or
@@ -85,19 +85,21 @@ Section Spec.
               | _, _ => r k'
               end.
 
-  Definition s_show_get (e : senv) (r : gres tmpl) : obs :=
-    match r with GOk t => render t (sr e) | GErr c => o_err c end.
+  (* a render is a function of the call (context, sink), the template and the registries: it does not
+     depend on earlier renders, failed or not, on this or any other thread *)
+  Definition s_show_get (e : senv) (rc : Z) (r : gres tmpl) : obs :=
+    match r with GOk t => render rc t (sr e) | GErr c => o_err c end.
 
   Definition s_show_sout (e : senv) (o : sout tmpl) : obs :=
     match o with
     | SUnit => o_unit
     | SAdd None => o_unit
     | SAdd (Some c) => o_err c
-    | SGot r => s_show_get e r
+    | SGot r => s_show_get e 0 r
     end.
 
-  (* what rendering [n] gives at time [now] *)
-  Definition s_observe (e : senv) (n : name) (now : Z) : obs := s_show_get e (snd (spec_get (sc e) n now)).
+  (* what render call [rc] of [n] gives at time [now] *)
+  Definition s_observe (e : senv) (rc : Z) (n : name) (now : Z) : obs := s_show_get e rc (snd (spec_get (sc e) n now)).
 
   Definition s_adhoc_mode (how c : Z) : cmode :=
     if how <? 4 then MTemplate c else if how <? 6 then MExpr else MAnalysis.
@@ -119,7 +121,10 @@ Section Spec.
     | WAdhoc how n x =>
         (* an ad-hoc source is compiled under the current configuration and rendered; it is not part of
            the contents before or after, whatever name it carries *)
-        (w, match compile (s_adhoc_mode how (cur_cfg (sc e))) x with COk t => render t (sr e) | CErr c => o_err c end)
+        (w, match compile (s_adhoc_mode how (cur_cfg (sc e))) x with COk t => render 0 t (sr e) | CErr c => o_err c end)
+    | WRender rc n now =>
+        let (c', r) := spec_get (sc e) n now in
+        ({| scur := {| sc := c'; sr := sr e |}; sother := sother w |}, s_show_get e rc r)
     | WRenderBadCtx n now panics =>
         let (c', r) := spec_get (sc e) n now in
         ({| scur := {| sc := c'; sr := sr e |}; sother := sother w |},
